@@ -522,6 +522,7 @@ func loadSpecFile(db *SpecDB, file, pkg string) error {
 	type rawLine struct {
 		text string
 		line int
+		top  bool // written flush after "//@ " (a file-level directive), not indented under a func
 	}
 	var lines []rawLine
 	ln := 0
@@ -531,6 +532,7 @@ func loadSpecFile(db *SpecDB, file, pkg string) error {
 		if !strings.HasPrefix(t, "//@") {
 			continue
 		}
+		top := !strings.HasPrefix(t[3:], "  ") && !strings.HasPrefix(t[3:], "\t")
 		t = strings.TrimSpace(t[3:])
 		if t == "" {
 			continue
@@ -547,7 +549,7 @@ func loadSpecFile(db *SpecDB, file, pkg string) error {
 			lines[len(lines)-1].text += " " + t
 			continue
 		}
-		lines = append(lines, rawLine{t, ln})
+		lines = append(lines, rawLine{t, ln, top})
 	}
 	var cur *Contract
 	var curProps []string
@@ -575,7 +577,9 @@ func loadSpecFile(db *SpecDB, file, pkg string) error {
 		switch kw {
 		case "prop":
 			ps := splitComma(rest)
-			if cur == nil {
+			if cur == nil || rl.top {
+				// file-level: applies to the entries that follow
+				cur = nil
 				curProps = ps
 			} else {
 				cur.Props = ps
